@@ -798,6 +798,9 @@ fn process_tags(
     let remain = &mut Vec::new();
     // (on the heap: this function is part of the recursion for nested elements)
     let mut waiting = Box::new(Waiting::new(tags, context));
+    let mut idle_passes = 0;
+    let registered_before = context.registered_count();
+    let (mut first_pass, mut ids_per_pass) = (true, usize::MAX);
 
     while !tags.is_empty() && remain.len() != tags.len() {
         #[cfg(feature = "verif-hooks")]
@@ -808,10 +811,11 @@ fn process_tags(
             crate::verif::sched_point("tag");
             // register early so reuse targets are available even if the element
             // is not ready (e.g. within a specs block)
+            let attempt = waiting.before_attempt(idx, t, context);
+            // (an id can be computed: it is evaluated in the tag's own surroundings too)
             let pending_id = t
                 .get_element_mut()
                 .and_then(|el| context.register_pending(el));
-            let attempt = waiting.before_attempt(idx, t, context);
             let gen_result = t.generate_events(context);
             waiting.after_attempt(attempt, gen_result.is_ok(), idx, context);
             // (what is done with the result is kept out of this function, which is part
@@ -833,10 +837,22 @@ fn process_tags(
         // Give up when a whole pass got nowhere: no tag of this list completed, and
         // neither did any element nested in one of them (which a tag of this list may
         // be waiting for) complete for the first time.
-        if tags.len() == remain.len() && context.progress() == progress_before {
-            return Err(SvgdxError::MultiError(element_errors));
+        if tags.len() == remain.len() {
+            // (... which is no reason to go on for ever: each such pass has to be
+            // justified by an element somewhere inside completing for the first time,
+            // and there are no more of those than one pass over the list registers)
+            idle_passes += 1;
+            if context.progress() == progress_before || idle_passes > ids_per_pass {
+                return Err(SvgdxError::MultiError(element_errors));
+            }
+        } else {
+            idle_passes = 0;
         }
 
+        if first_pass {
+            ids_per_pass = context.registered_count() - registered_before + 1;
+            first_pass = false;
+        }
         mem::swap(tags, remain);
         remain.clear();
     }
@@ -852,13 +868,17 @@ struct Waiting {
     waiting_in: HashMap<OrderIndex, Surroundings>,
     /// document position of each tag of the list
     position: HashMap<OrderIndex, usize>,
-    /// positions of the tags which wait
-    is_waiting: HashSet<usize>,
     /// The previous element (`^`) of a tag is what the nearest tag before it which has a
-    /// bounding box left there - once that tag has been evaluated.
-    prev_before_all: (Option<SvgElement>, Option<SvgElement>),
-    prev_left_by: HashMap<usize, (Option<SvgElement>, Option<SvgElement>)>,
+    /// bounding box left there - once that tag has been evaluated. By position: the
+    /// tags which wait (`None`), and what the others left, if anything.
+    prev_before_all: PrevElements,
+    prev_known: BTreeMap<usize, Option<PrevElements>>,
+    /// number of tags which wait
+    waiting_count: usize,
 }
+
+/// The previous element: as evaluated, and as written
+type PrevElements = (Option<SvgElement>, Option<SvgElement>);
 
 /// One attempt at a tag
 struct Attempt {
@@ -879,9 +899,9 @@ impl Waiting {
                 .enumerate()
                 .map(|(pos, (idx, _))| (idx.clone(), pos))
                 .collect(),
-            is_waiting: HashSet::new(),
             prev_before_all: context.prev_elements(),
-            prev_left_by: HashMap::new(),
+            prev_known: BTreeMap::new(),
+            waiting_count: 0,
         }
     }
 
@@ -894,7 +914,7 @@ impl Waiting {
     ) -> Attempt {
         let pos = self.position.get(idx).copied().unwrap_or(0);
         let retried = self.waiting_in.contains_key(idx);
-        let after_waiting = retried || !self.is_waiting.is_empty();
+        let after_waiting = retried || self.waiting_count > 0;
         // (on the first attempt these are the current surroundings; only an element with
         // content can change them before it fails, so for the others they are not
         // recorded unless that happens)
@@ -908,19 +928,13 @@ impl Waiting {
         if after_waiting {
             // something before this tag has had to wait, or did when this tag was first
             // tried: find out what the previous element is by now
-            let mut prev = Some(self.prev_before_all.clone());
-            for before in (0..pos).rev() {
-                if self.is_waiting.contains(&before) {
-                    // not known yet: `^` can't be resolved
-                    prev = None;
-                    break;
-                }
-                if let Some(left) = self.prev_left_by.get(&before) {
-                    prev = Some(left.clone());
-                    break;
-                }
-            }
-            written_in = written_in.map(|w| w.with_prev(prev.unwrap_or((None, None))));
+            let prev = match self.prev_known.range(..pos).next_back() {
+                // (a tag which waits: not known yet, `^` can't be resolved)
+                Some((_, None)) => (None, None),
+                Some((_, Some(left))) => left.clone(),
+                None => self.prev_before_all.clone(),
+            };
+            written_in = written_in.map(|w| w.with_prev(prev));
         }
         let current = match (&written_in, after_waiting) {
             (Some(written_in), true) => {
@@ -947,10 +961,13 @@ impl Waiting {
         context: &mut TransformerContext,
     ) {
         if succeeded {
-            self.is_waiting.remove(&attempt.pos);
+            if attempt.retried {
+                self.waiting_count -= 1;
+                self.prev_known.remove(&attempt.pos);
+            }
             if context.prev_count() != attempt.prev_count {
-                self.prev_left_by
-                    .insert(attempt.pos, context.prev_elements());
+                self.prev_known
+                    .insert(attempt.pos, Some(context.prev_elements()));
             }
         } else {
             // A failed attempt leaves nothing behind, except that the random numbers it
@@ -971,7 +988,10 @@ impl Waiting {
                 context.set_rng_state(rng);
             }
             self.waiting_in.insert(idx.clone(), written_in);
-            self.is_waiting.insert(attempt.pos);
+            if !attempt.retried {
+                self.waiting_count += 1;
+            }
+            self.prev_known.insert(attempt.pos, None);
         }
         if let Some(current) = attempt.current {
             if attempt.retried {
